@@ -285,7 +285,7 @@ func cmdCalls(args []string) {
 		r := base(i)
 		r["exec"] = false
 		if o == nil {
-			r["gen"], r["why"], r["compiles"], r["apiOK"] = "missing", "", false, false
+			r["gen"], r["why"], r["compiles"], r["apiOK"], r["imports"], r["decls"] = "missing", "", false, false, []string{}, []string{}
 			obs.Write(r)
 			continue
 		}
@@ -297,6 +297,7 @@ func cmdCalls(args []string) {
 			nOK++
 		}
 		r["gen"], r["why"], r["compiles"], r["apiOK"], r["comperr"], r["diag"] = o.Gen, why, badComp[i] == "", badAPI[i] == "", badComp[i]+badAPI[i], firstLine(o.Why)
+		r["imports"], r["decls"] = hx.DescribeFiles(o.Files, map[string]string{mod + "/" + progDir(i, scens[i]): "user"})
 		obs.Write(r)
 	}
 	nExec := 0
